@@ -131,6 +131,14 @@ def _pc_fname(prog, key) -> Optional[Set[str]]:
     return {"IDENTIFIER"}
 
 
+def _path_or_copy(v) -> bool:
+    from ..dataflow import is_path
+    if is_path(v) or (isinstance(v, ast.Subscript) and isinstance(v.slice, ast.Slice) and is_path(v.value)):
+        return True
+    return isinstance(v, ast.Call) and isinstance(v.func, ast.Name) and v.func.id in ("list", "tuple", "sorted", "reversed") \
+        and len(v.args) == 1 and not v.keywords and _path_or_copy(v.args[0])
+
+
 def _sel_param(r) -> bool:
     e = token_expr_of(r.node)
     return isinstance(e, ast.Name) and e.id in r.fn.params
@@ -142,9 +150,12 @@ def _sel_loop_over(attr):
         if not isinstance(e, ast.Name):
             return False
         for n in walk_fn(r.fn.node):
-            if isinstance(n, (ast.For, ast.comprehension)) and any(isinstance(x, ast.Name) and x.id == e.id for x in ast.walk(n.target)) \
-                    and attr in text(n.iter, 300):
-                return True
+            if isinstance(n, (ast.For, ast.comprehension)) and any(isinstance(x, ast.Name) and x.id == e.id for x in ast.walk(n.target)):
+                # the iterated value, seen through local aliases and copies (`pending = list(scope.vars_name)`)
+                from ..dataflow import expand_aliases
+                it = expand_aliases(r.fn, n.iter, accept=_path_or_copy)
+                if attr in text(it, 300):
+                    return True
         return False
     return sel
 
